@@ -215,6 +215,8 @@ pub enum SplitMenu {
 #[derive(Clone, Copy, Debug, PartialEq, Eq, Hash, PartialOrd, Ord)]
 pub enum FaultKind {
     Close,
+    /// like Close, and every later write fails (connection reset)
+    CloseRst,
     ReadErr,
     WriteErr,
     Garbage,
@@ -308,6 +310,7 @@ pub enum Ev {
     Cancel(usize, usize),
     Notify(String),
     Close(usize),
+    CloseRst(usize),
     ReadErr,
     WriteErr,
     Garbage,
@@ -326,6 +329,7 @@ impl Ev {
             Ev::Cancel(i, j) => format!("Cancel({i},{j})"),
             Ev::Notify(n) => format!("Notify({n})"),
             Ev::Close(p) => format!("Close({p})"),
+            Ev::CloseRst(p) => format!("CloseRst({p})"),
             Ev::ReadErr => "ReadErr".into(),
             Ev::WriteErr => "WriteErr".into(),
             Ev::Garbage => "Garbage".into(),
@@ -333,7 +337,7 @@ impl Ev {
         }
     }
     pub fn is_fault(&self) -> bool {
-        matches!(self, Ev::Close(_) | Ev::ReadErr | Ev::WriteErr | Ev::Garbage | Ev::DropHandles)
+        matches!(self, Ev::Close(_) | Ev::CloseRst(_) | Ev::ReadErr | Ev::WriteErr | Ev::Garbage | Ev::DropHandles)
     }
 }
 
@@ -934,6 +938,15 @@ impl World {
                             }
                         }
                     }
+                    FaultKind::CloseRst => {
+                        let mut v = vec![0, undelivered];
+                        v.extend(self.split_points());
+                        v.sort();
+                        v.dedup();
+                        for p in v {
+                            alts.push(Ev::CloseRst(p));
+                        }
+                    }
                     FaultKind::ReadErr => alts.push(Ev::ReadErr),
                     FaultKind::WriteErr => alts.push(Ev::WriteErr),
                     FaultKind::Garbage => alts.push(Ev::Garbage),
@@ -1034,6 +1047,17 @@ impl World {
                 s.s2c.truncate(end);
                 s.closed_at = Some(end);
                 s.server.dead = true;
+                s.wake_reader();
+            }
+            Ev::CloseRst(p) => {
+                self.faults_used += 1;
+                self.fault = Some((ev.clone(), self.step));
+                let mut s = self.sh();
+                let end = (s.delivered + p).min(s.s2c.len());
+                s.s2c.truncate(end);
+                s.closed_at = Some(end);
+                s.server.dead = true;
+                s.write_err = true;
                 s.wake_reader();
             }
             Ev::ReadErr => {
